@@ -255,3 +255,73 @@ Proof.
   intros He H. destruct (exec_prefix _ _ _ _ _ H) as (Hex & Hp & _). cbn [fst snd] in *.
   exact (proj2 (exec_SF ths pre s He Hex i) Hp).
 Qed.
+
+(** * the window between the "system queue empty" observation and the user pop *)
+Definition in_window (p : pc) : bool := match p with HLoadPaused | HUserPop => true | _ => false end.
+
+Lemma window_le_owner l : cnt in_window l <= cnt owner_pc l.
+Proof. apply cnt_le. intros p. destruct p; cbn; congruence. Qed.
+
+Lemma step_window i s s' p : cnt bad_pc (thr s) = 0 -> nth_error (thr s) i = Some p -> step i s = Some s' ->
+  sq s <> [] ->
+  cnt in_window (thr s') + (if is_user_pop (i, p, s) then 1 else 0) <= cnt in_window (thr s).
+Proof.
+  intros Hwf Hp0 Hs Hne. unfold is_user_pop. cbn [fst snd].
+  step_cases Hs Hp; inversion Hp0; subst p; clear Hp0; try congruence.
+  1: pose proof (cnt_pos bad_pc _ _ _ Hp) as Hbp;
+     destruct k; cbn [bad_pc] in Hbp; try (specialize (Hbp eq_refl); lia).
+  all: cbn [thr set_thr uq]; rewrite ?cnt_app, (cnt_upd _ _ _ _ _ Hp); cbn [cnt in_window b2z];
+       repeat match goal with H : _ = _ :> list _ |- _ => rewrite H in * end;
+       try destruct (uq s); lia.
+Qed.
+
+Lemma window_trace sb s : Inv s -> Forall (fun e => sq (snd e) <> []) (run_trace2 sb s) ->
+  Z.of_nat (user_pops (run_trace2 sb s)) + cnt in_window (thr (run sb s)) <= cnt in_window (thr s).
+Proof.
+  revert s. induction sb as [|i r IH]; intros s HI HF; cbn [run_trace2] in *.
+  - cbn. lia.
+  - rewrite run_cons. unfold step_or_stay.
+    destruct (nth_error (thr s) i) as [p|] eqn:Hp.
+    + destruct (step i s) as [s'|] eqn:Hs; [|exact (IH s HI HF)].
+      inversion HF as [|e l Hne HF']; subst. cbn [snd] in Hne.
+      specialize (IH s' (step_inv _ _ _ HI Hs) HF').
+      pose proof (step_window _ _ _ _ (i_wf _ HI) Hp Hs Hne) as Hw.
+      unfold user_pops in *. cbn [filter]. destruct (is_user_pop (i, p, s)); cbn [length]; lia.
+    + rewrite (step_none_of_nth _ _ Hp). exact (IH s HI HF).
+Qed.
+
+(** in a stretch of an execution during which the system queue is never empty at most one user message
+    is taken out of the user queue *)
+Theorem window_one_pop ths sched A B C : forallb env_pc ths = true ->
+  run_trace2 sched (init ths) = A ++ B ++ C ->
+  (forall e, In e B -> sq (snd e) <> []) -> (user_pops B <= 1)%nat.
+Proof.
+  intros He H HB.
+  destruct (run_trace2_split _ _ _ _ H) as (sa & sb & -> & Ha & Hb).
+  destruct (run_trace2_split _ _ _ _ Hb) as (sb1 & sb2 & -> & Hb1 & _).
+  pose proof (run_inv sa _ (init_inv _ He)) as HI.
+  assert (HF : Forall (fun e => sq (snd e) <> []) (run_trace2 sb1 (run sa (init ths)))).
+  { rewrite Hb1. apply Forall_forall. exact HB. }
+  pose proof (window_trace sb1 _ HI HF) as Hw. rewrite Hb1 in Hw.
+  pose proof (window_le_owner (thr (run sa (init ths)))) as H1.
+  pose proof (cnt_nonneg in_window (thr (run sb1 (run sa (init ths))))) as H2.
+  pose proof (i_own _ HI) as Ho. unfold b2z in Ho. destruct (status (run sa (init ths))); lia.
+Qed.
+
+Theorem kill_overtakes ths sched A j m s0 B C : forallb env_pc ths = true ->
+  run_trace2 sched (init ths) = A ++ (j, SPush true m, s0) :: B ++ C ->
+  (forall e, In e B -> In m (sq (snd e))) -> (user_pops B <= 1)%nat.
+Proof.
+  intros He H HB. apply (window_one_pop ths sched (A ++ [(j, SPush true m, s0)]) B C He).
+  - rewrite <- app_assoc. exact H.
+  - intros e Hin Hnil. specialize (HB e Hin). rewrite Hnil in HB. destruct HB.
+Qed.
+
+(** the hypothesis of [kill_overtakes] holds right after the push: the message is in the system queue *)
+Lemma pushed_is_queued ths sched A j m s0 e1 C :
+  run_trace2 sched (init ths) = A ++ (j, SPush true m, s0) :: e1 :: C -> In m (sq (snd e1)).
+Proof.
+  intros H. destruct (exec_prefix _ _ _ _ _ H) as (_ & Hp & s' & sb & Hs & HB). cbn [fst snd] in *.
+  destruct e1 as [[i1 p1] s1]. symmetry in HB. destruct (run_trace2_head _ _ _ _ _ _ HB) as (-> & _).
+  cbn [snd]. unfold step in Hs. rewrite Hp in Hs. inversion Hs. cbn [sq set_thr]. apply in_or_app. right. left. reflexivity.
+Qed.
